@@ -825,6 +825,18 @@ func c09seeds(ctx *verifhlib.Ctx, dir func() string) {
 		x.getmd(1, 1, 0)
 		x.getmd(1, 2, 0)
 	})
+	// a metadata update of a flushed, unbanned blob must pin it in memory until it is flushed
+	c09run(ctx, dir(), roomy, "seed-setmd-then-pressure", func(x *c09exec) {
+		x.create(1, []byte{7}, 2)
+		x.mark(1)
+		x.drain()
+		x.setmd(1, 1, []byte{6}) // the worker starts a metadata-only flush and is parked
+		x.pressure(8)
+		x.getmd(1, 1, 0)
+		x.drain()
+		x.pressure(8)
+		x.getmd(1, 1, 0)
+	})
 	// delete at every stage of a flush, then re-create after the flush has ended (allowed by H2)
 	for _, pt := range []int{1, 2, 4, 5, 6, 7, 8, 9} {
 		pt := pt
